@@ -477,6 +477,110 @@ theorem unslice_series (dfs : List TS) (ub : List Int) (h : Stitchable dfs ub) (
       rw [e]
       exact (get_eq_some_iff (hs _ (List.getElem_mem _)) t x).mpr hx
 
+/-- **unslice_restitch (partial: `n > 1`)**: for NaN-free proper series stitched with `n > 1` columns at strictly
+    increasing bounds, `df_unslice` returns one series per bound (in bound order) and stitching those again with the
+    same bounds and `n` reproduces the frame exactly.  NOT proved: the one-column case `n = 1` (there the order of the
+    rows `df_unslice` concatenates matters, not only their content); it is evaluated on the model by a `#guard` below
+    and checked on the implementation by the round-trip cases of the correspondence check and by `laws`.  Series
+    holding NaN values are excluded on purpose: `df_unslice` drops NaN rows, so an all-NaN row cannot come back. -/
+theorem unslice_restitch_partial (dfs : List TS) (ub : List Int) (h : Stitchable dfs ub) (hstrict : ub.Pairwise (· < ·))
+    (hs : ∀ s ∈ dfs, s.Sorted) (hnn : ∀ s ∈ dfs, ∀ p ∈ s, p.2.isSome = true) (n : Nat) (hn : 1 < n) :
+    ∃ F U, stitch dfs Option.none (some ub) (some ['(', ']']) n = .ok (some F) ∧ unslice F ub = .ok U ∧
+      U.map (·.1) = ub ∧ stitch (U.map (·.2)) Option.none (some ub) (some ['(', ']']) n = .ok (some F) := by
+  obtain ⟨F, hF, _⟩ := stitch_eq dfs ub h (some ['(', ']']) n false true rfl
+  have hlen := h.len
+  have htwo := h.two
+  have hW := stitch_width dfs ub h _ n hn false true rfl F hF
+  -- the keys `df_unslice` groups by are the bounds, in order
+  have hkeys : ((rsOf F ub).map (·.1)).eraseDups.mergeSort (fun a b => decide (a ≤ b)) = ub := by
+    apply Bitemp.sortedLt_ext (dedupSort_sorted _) hstrict
+    intro u
+    rw [mem_dedupSort, List.mem_map]
+    constructor
+    · rintro ⟨⟨u', c⟩, hm, rfl⟩
+      obtain ⟨i, j, _, _, huj, _⟩ := mem_rsOf.mp hm
+      exact List.mem_of_getElem? huj
+    · intro hu
+      obtain ⟨k, hk, rfl⟩ := List.mem_iff_getElem.mp hu
+      exact ⟨(ub[k], _), mem_rsOf.mpr ⟨k, 0, hk, by omega, by simp [hk], rfl⟩, rfl⟩
+  let Us : List TS := ub.map fun u => nona (((rsOf F ub).filter (·.1 == u)).flatMap (·.2))
+  refine ⟨F, ub.map fun u => (u, nona (((rsOf F ub).filter (·.1 == u)).flatMap (·.2))), hF, ?_, ?_, ?_⟩
+  · rw [unslice_eq, hkeys]
+  · simp [List.map_map, Function.comp_def]
+  · have hmap : (ub.map fun u => (u, nona (((rsOf F ub).filter (·.1 == u)).flatMap (·.2)))).map (·.2) = Us := by
+      simp [Us, List.map_map, Function.comp_def]
+    rw [hmap]
+    have hUlen : Us.length = ub.length := by simp [Us]
+    have hU : Stitchable Us ub := ⟨hUlen, h.two, h.inc⟩
+    obtain ⟨F', hF', _⟩ := stitch_eq Us ub hU (some ['(', ']']) n false true rfl
+    have hW' := stitch_width Us ub hU _ n hn false true rfl F' hF'
+    rw [hF']
+    -- the recovered series agree with the original ones wherever the stitch looks at them
+    have hUk : ∀ k (hk : k < ub.length), Us[k]'(by omega) = nona (((rsOf F ub).filter (·.1 == ub[k])).flatMap (·.2)) := by
+      intro k hk; simp [Us]
+    have hUnn : ∀ k (hk : k < ub.length), ∀ p ∈ Us[k]'(by omega), p.2.isSome = true := by
+      intro k hk p hp
+      rw [hUk k hk] at hp
+      exact (List.mem_filter.mp hp).2
+    have hagree : ∀ i (hi : i < ub.length) (t : Int), inWindow false true (loBound ub i) (.date ub[i]) t = true →
+        ∀ j, j < n → ∀ (hij : i + j < ub.length),
+          (Us[i + j]'(by omega)).get t = (dfs[i + j]'(by omega)).get t ∧
+          (t ∈ (Us[i + j]'(by omega)).index ↔ t ∈ (dfs[i + j]'(by omega)).index) := by
+      intro i hi t hw j hj hij
+      apply get_agree t (hUnn _ hij) (hnn _ (List.getElem_mem _)) (hs _ (List.getElem_mem _))
+      intro x
+      rw [hUk _ hij, unslice_series dfs ub h hstrict hs n hn F hF (i + j) hij t x]
+      constructor
+      · exact fun hh => hh.1
+      · intro hh; exact ⟨hh, i, hi, by omega, by omega, hw⟩
+    have hcols : ∀ i (hi : i < ub.length) (t : Int), inWindow false true (loBound ub i) (.date ub[i]) t = true →
+        ((∃ s ∈ (Us.drop i).take n, t ∈ s.index) ↔ (∃ s ∈ (dfs.drop i).take n, t ∈ s.index)) ∧
+        ((Us.drop i).take n).map (·.get t) = ((dfs.drop i).take n).map (·.get t) := by
+      intro i hi t hw
+      constructor
+      · constructor
+        · rintro ⟨s, hsm, hts⟩
+          obtain ⟨j, hj, hsj⟩ := mem_take_drop.mp hsm
+          have hij : i + j < ub.length := by rw [← hUlen]; exact (List.getElem?_eq_some_iff.mp hsj).1
+          have e : Us[i + j]'(by omega) = s := (List.getElem?_eq_some_iff.mp hsj).2
+          refine ⟨dfs[i + j]'(by omega), mem_take_drop.mpr ⟨j, hj, List.getElem?_eq_getElem _⟩, ?_⟩
+          exact ((hagree i hi t hw j hj hij).2).mp (by rw [e]; exact hts)
+        · rintro ⟨s, hsm, hts⟩
+          obtain ⟨j, hj, hsj⟩ := mem_take_drop.mp hsm
+          have hij : i + j < ub.length := by rw [← hlen]; exact (List.getElem?_eq_some_iff.mp hsj).1
+          have e : dfs[i + j]'(by omega) = s := (List.getElem?_eq_some_iff.mp hsj).2
+          refine ⟨Us[i + j]'(by omega), mem_take_drop.mpr ⟨j, hj, List.getElem?_eq_getElem _⟩, ?_⟩
+          exact ((hagree i hi t hw j hj hij).2).mpr (by rw [e]; exact hts)
+      · apply List.ext_getElem
+        · simp only [List.length_map, List.length_take, List.length_drop]; omega
+        · intro j h1 h2
+          simp only [List.length_map, List.length_take, List.length_drop] at h1 h2
+          simp only [List.getElem_map, List.getElem_take, List.getElem_drop]
+          exact (hagree i hi t hw j (by omega) (by omega)).1
+    -- both frames are strictly increasing in time and hold the same rows
+    have hsort : F.rows.Pairwise (fun a b => a.1 < b.1) :=
+      stitch_once_of dfs ub h _ n false true rfl (by simp) (framesOf_rows_sorted_cols dfs n hn) F hF
+    have hsort' : F'.rows.Pairwise (fun a b => a.1 < b.1) :=
+      stitch_once_of Us ub hU _ n false true rfl (by simp) (framesOf_rows_sorted_cols Us n hn) F' hF'
+    have hwidth : F'.width = F.width := by rw [hW, hW']
+    have hrows : F'.rows = F.rows := by
+      apply rows_ext hsort' hsort
+      rintro ⟨t, vs⟩
+      rw [stitch_source Us ub hU _ n hn false true rfl F' hF' t vs,
+        stitch_source dfs ub h _ n hn false true rfl F hF t vs]
+      constructor
+      · rintro ⟨i, hi, hex, hlo, hhi, hvs⟩
+        have hw : inWindow false true (loBound ub i) (.date ub[i]) t = true := by simp [inWindow, hlo, hhi]
+        obtain ⟨h1, h2⟩ := hcols i hi t hw
+        exact ⟨i, hi, h1.mp hex, hlo, hhi, by rw [hvs, h2, hwidth]⟩
+      · rintro ⟨i, hi, hex, hlo, hhi, hvs⟩
+        have hw : inWindow false true (loBound ub i) (.date ub[i]) t = true := by simp [inWindow, hlo, hhi]
+        obtain ⟨h1, h2⟩ := hcols i hi t hw
+        exact ⟨i, hi, h1.mpr hex, hlo, hhi, by rw [hvs, h2, hwidth]⟩
+    cases F; cases F'
+    simp only at hwidth hrows
+    rw [hwidth, hrows]
+
 /-! evaluation tests of the full round trip on the model (`List.mergeSort` does not reduce in the kernel) -/
 
 def demoSeries : List TS := [[(0, some 1), (2, some 2), (5, some 3)], [], [(1, some 7), (2, some 8), (4, some 9), (9, some 6)]]
